@@ -12,10 +12,14 @@ func init() {
 			"(C06-b) the exposure shortcut of determineAllowedConnsPerDirection returns a stored set only under its own AllowAll flag, and the cluster-wide shortcut only when the OTHER end (source on ingress, destination on egress) is a pod; " +
 			"(C06-c) the protected flag is written only by UpdatePodXgressProtectedFlag, called only where policies selecting the pod in the queried direction exist; " +
 			"(C06-d) the exposure flag is read on query paths only at the side-effect sites, representative peers never enter GetPeersList, and loops that fold exposure data have no early exit but errors. " +
+			"(C06-a-store) a set stored into such a holder is fresh; (C06-pure) no unreviewed long-lived write on the query paths; " +
+			"(C06-e) a rule peer is recorded as exposure to the entire cluster only under `namespaceSelector present and empty, podSelector absent or empty` (path condition at the recording call; one-line boolean helpers are inlined), and external + cluster-wide only for a rule without peers. " +
 			"NOT decided: realizability of each reported entry for hypothetical pods."
 		rules.SharedSets(p, r, "C06-a")
 		rules.ExposureShortcut(p, r, "C06-b")
 		rules.ProtectionFlag(p, r, "C06-c")
 		rules.ExposureFlagNonInterference(p, r, "C06-d")
+		rules.ClusterWideCondition(p, r, "C06-e")
+		rules.QueryPathWrites(p, r, "C06-pure")
 	})
 }
